@@ -6,7 +6,8 @@ class C08(vlib.Spec):
     model_vo = ["theories/Coll/ModelGHT.vo"]
     props_vo = "theories/Props/C08.vo"
     theorems = ["C08_history", "C08_insert", "C08_contains", "C08_iter_nodup", "C08_merge", "C08_pcmp", "C08_eq",
-                "C08_prefix", "C08_find_leaf", "C08_holds_b_sound", "C08_pcmp_refuted"]
+                "C08_prefix", "C08_find_leaf", "C08_join", "C08_join_nodup", "C08_cart", "C08_holds_b_sound",
+                "C08_pcmp_refuted"]
     crate, group, binary = "h_coll", "light", "h_coll"
     imports = "From HV Require Import Coll.ModelGHT."
     harness_shards = 4
@@ -17,17 +18,16 @@ class C08(vlib.Spec):
     assumptions = ["model validated against lattices::ght only on the generated histories",
                    "hash iteration order abstracted: row lists are compared as multisets; for tries of height >= 2 "
                    "None vs panic of partial_cmp depends on HashMap iteration order and is compared up to that",
-                   "set storage (VariadicHashSetStd) in the leaves; COLT force / `forced` flag and the join "
-                   "bimorphisms are not covered"]
+                   "set storage (VariadicHashSetStd) in the leaves; COLT force / `forced` flag not covered"]
     rule = ("operation histories (1-40 ops) over two tries of one GhtType! shape (6 shapes: 0-3 key columns, "
             "0-2 value columns), tuple domain {0..3}^k: insert, merge_node / Merge::merge of the other trie, contains, "
-            "recursive_iter, prefix_iter (every prefix length), find_containing_leaf, partial_cmp, ==, height, is_bot; "
+            "recursive_iter, prefix_iter (every prefix length), find_containing_leaf, partial_cmp, ==, height, is_bot, deep join (DeepJoinLatticeBimorphism) and root cartesian product (GhtCartesianProductBimorphism) of the two tries; "
             "every observation compared with the Coq model and with the abstract set of rows; non-trivial = at least "
             "one insert and one other op; distinct = distinct case JSON")
 
     def gen(self, rng, tier, n):
         shapes = vlib.run_harness(self.ctx, self.bin, [{"k": "shapes"}], name="shapes")[0]
-        got = {s["shape"]: {"nk": s["nk"], "arity": s["arity"]} for s in shapes}
+        got = {s["shape"]: {"nk": s["nk"], "arity": s["arity"], "nko": s["nko"]} for s in shapes}
         if got != coll.GHT_SHAPES:
             raise RuntimeError("harness shapes differ from tools/coll.py: %r" % got)
         return coll.gen_ght(rng, tier, n)
